@@ -46,6 +46,9 @@ class ComputeResidual(Contract):
                     out.append(dict(M=M, tau=tau, rt=rt, skip=False, resnone=False))
         for resnone in (False, True):
             out.append(dict(M=2, tau=True, rt='full_abs', skip=True, resnone=resnone))
+        # history: the same sweeper computed a residual before, at the SAME time and step size but on OTHER values (next iteration of a step
+        # in a block after its u[0] was replaced by the predecessor's end value; a second run from the same t0 with another u0)
+        out += [dict(i, earlier=True) for i in out if i['M'] <= 2 and i['rt'] in RES_TYPES and not i['skip']]
         return out
 
     def build(self, inst, mk):
@@ -59,6 +62,21 @@ class ComputeResidual(Contract):
         for m in range(inst['M']):
             L.residual[m] = mk.vec(f'L.res{m}')
         stub_integrate(L)
+        if inst.get('earlier'):
+            H = make_level(cls, inst['M'], mk, kind=self.kind, tau=inst['tau'], sweeper_params=dict(skip_residual_computation=skipstages),
+                           level_params=dict(residual_type=inst['rt']), name='H')
+            H.status.time, H.params.dt = L.status.time, L.params.dt
+            H.status.residual, H.status.updated = mk.real('H.res_old'), True
+            for m in range(inst['M']):
+                H.residual[m] = mk.vec(f'H.res{m}')
+            sw, H.level_index = L.sweep, getattr(L, 'level_index', 0)
+            H.prob.fix_bc_for_residual = False
+            keep = sw.integrate
+            sw.level, sw.integrate = H, (lambda: [x * 1 for x in spec_integrate(H)])
+            try:
+                sw.compute_residual(stage='IT_CHECK')
+            finally:
+                sw.level, sw.integrate = L, keep
         return State(L=L, M=inst['M'], inst=inst, call=lambda: L.sweep.compute_residual(stage='IT_CHECK'))
 
     def snapshot(self, st):
